@@ -34,7 +34,9 @@ def reno_rules(pre, ev, r=None, ackno=None):
     """post-state of the statement's rule table. pre: dict(cwnd, ssthresh, dupack, srtt, rttvar, rto, last_ack)"""
     post = dict(pre)
     if ev == 'new':
-        cw = pre['ssthresh'] if pre['dupack'] > 0 else pre['cwnd']      # deflate first
+        # deflate first - only a run of duplicates that reached the third one (fast retransmit / recovery) inflated the window;
+        # after one or two duplicates the new ACK is counted like any new ACK
+        cw = pre['ssthresh'] if pre['dupack'] >= 3 else pre['cwnd']
         post['dupack'] = 0
         post['cwnd'] = Ite(le(cw, pre['ssthresh']), cw + MSS, cw + (MSS * MSS) / cw)   # same term shape as the code: int / cwnd
         err = r - pre['srtt']
@@ -117,8 +119,10 @@ def h_reno(cfg):
                 snd.put(ack)
                 compare('new', reno_rules(pre, 'new', r, ackno), snapshot(snd), (ei, ev))
                 cover('new-ack')
-                if pre['dupack'] > 0:
+                if pre['dupack'] >= 3:
                     cover('deflate')
+                elif pre['dupack'] > 0:
+                    cover('new-ack-after-one-or-two-duplicates')
             elif ev == 'dup':
                 ack = Packet(env.now, 40, snd.last_ack, flow_id=10000)
                 ack.ack = snd.last_ack
@@ -207,7 +211,7 @@ def h_cubic(cfg):
                 ack.ack = ackno
                 snd.put(ack)
                 cur = snapshot(snd)
-                cw = pre['ssthresh'] if pre['dupack'] > 0 else pre['cwnd']
+                cw = pre['ssthresh'] if pre['dupack'] >= 3 else pre['cwnd']
                 if cw <= pre['ssthresh']:
                     check('c17.cubic-slow-start', eq(cur['cwnd'], cw + MSS), ei)
                     cover('cubic-slow-start')
@@ -289,7 +293,7 @@ META = {
     'required_labels': ['c17.send-guard', 'c17.new-cwnd', 'c17.new-rto', 'c17.dup-cwnd', 'c17.dup-ssthresh',
                         'c17.timeout-cwnd', 'c17.timeout-rto', 'c17.cubic-slow-start', 'c17.cubic-ca-step'],
     'required_covers': ['nontrivial', 'new-ack', 'deflate', 'fast-retransmit', 'timeout', 'new-segment', 'cubic-ca',
-                        'dup-with-nothing-outstanding'],
+                        'dup-with-nothing-outstanding', 'new-ack-after-one-or-two-duplicates'],
     'bounds': {'quick': 'Reno: flow of 3 MSS, initial window 1-2 MSS, then cwnd, ssthresh >= MSS, rttvar >= 0, rtt estimate > 0 arbitrary reals; '
                         'event histories of length <= 4 (new ACK advancing 1-2 segments with symbolic RTT sample, duplicate ACKs, timer expiries '
                         'at symbolic instants, at most 1 expiry per history (2 for the empty history), initial RTT estimate >= 1; CUBIC: defaults, 6 events new/dup chosen by the solver, concrete dt/RTT',
